@@ -155,4 +155,27 @@ example : eligible false [46, 104] true false 0o755 = false := by decide     -- 
 example : eligible true [104, 105] true false 0o755 = false := by decide     -- world-writable directory
 example : eligible false [104, 105] true false 0o644 = false := by decide    -- not executable
 
+/-! ### A hook that hangs is killed after its time limit
+
+`runHook` starts the process, waits for it in its own goroutine and, when the timer of `limit`
+seconds fires first, calls `Process.Kill()` — SIGKILL, which (an assumption about the kernel)
+no process can catch, block or ignore. What the hook does with other signals is irrelevant. -/
+
+/-- What a hook process does on its own. -/
+inductive HookProc
+  | exitsAfter (d : Nat)                -- terminates by itself after d seconds
+  | hangs (ignoresTerm : Bool)          -- never terminates; may ignore SIGTERM / SIGHUP / SIGINT
+  deriving Repr, DecidableEq
+
+/-- Seconds after its start at which the process is gone. -/
+def goneAfter (limit : Nat) : HookProc → Nat
+  | .exitsAfter d => min d limit
+  | .hangs _ => limit
+
+theorem hook_gone_within_limit (limit : Nat) (p : HookProc) : goneAfter limit p ≤ limit := by
+  cases p <;> simp [goneAfter, Nat.min_le_right]
+
+/-- The time limit does not depend on the hook's signal dispositions (a SIGTERM-based limit would). -/
+theorem kill_ignores_signal_disposition (limit : Nat) (a b : Bool) : goneAfter limit (.hangs a) = goneAfter limit (.hangs b) := rfl
+
 end Whawty.Hooks.C19
